@@ -88,6 +88,13 @@ func c12Scenario() *Scenario {
 			s.Actions = append(s.Actions, a)
 		}
 	}
+	// a receiver that can never be paid (a blocked module account), in both spellings of its address: such a
+	// stream must not come into being - its deposit could only be stranded
+	s.Actions = append(s.Actions,
+		op("create(A->fee_collector)", model.Msg{Kind: model.StrCreate, From: "A", To: model.ModFee, Den: mc.Tok, Amt: "6000", Rate: 1}),
+		op("create(A->FEE_COLLECTOR,upper-case spelling)", model.Msg{Kind: model.StrCreate, From: "A", To: model.ModFee, Den: mc.Tok, Amt: "6000", Rate: 1, Up: true}),
+		op("create(A->R2,upper-case spelling)", model.Msg{Kind: model.StrCreate, From: "A", To: "R2", Den: mc.Tok, Amt: "6000", Rate: 1, Up: true}),
+	)
 	s.Actions = append(s.Actions,
 		govOnce("gov(fee=1)", model.StrParams, "1.000000000000000000"),
 		govOnce("gov(fee=1e-18)", model.StrParams, "0.000000000000000001"),
@@ -104,7 +111,7 @@ func init() {
 				Quick:    {Depth: 4, Budget: 150 * time.Second, ReplayEvery: 4},
 				Thorough: {Depth: 6, Budget: 12 * time.Minute, ReplayEvery: 8, MaxStates: 300000},
 			}}},
-			Owns:        ownsAny("tx.reject_unexpected:str.claim", "tx.reject_unexpected:str.cancel", "tx.reject_unexpected:str.topup", "tx.panic"),
+			Owns:        ownsAny("tx.reject_unexpected:str.claim", "tx.reject_unexpected:str.cancel", "tx.reject_unexpected:str.topup", "tx.panic", "tx.accept_unexpected:str.create:blocked_recipient"),
 			Extra:       c12Enum,
 			Assumptions: []string{"only streams whose creation the chain accepted are judged", "numeric domain covered on the boundary grid listed in coverage.grid"},
 		}
